@@ -142,7 +142,8 @@ func VerifC26Step() {
 	} else {
 		verifAssert(logs[1].Outcome.Outcome == auditlog.OutcomeSuccess && logs[1].Outcome.StatusCode == 200, "C26: successful call not recorded as success")
 	}
-	crossed := prefill+2 >= auditlog.GroundingBlockSize
+	// the prefill itself closes a block with every GroundingBlockSize-th entry
+	crossed := prefill%auditlog.GroundingBlockSize+2 >= auditlog.GroundingBlockSize
 	verifAssert((groundings == 1) == crossed && groundings <= 1, "C26: grounding not emitted exactly when the 1000th entry of the block is written")
 	if crossed {
 		verifCover("grounding")
